@@ -735,6 +735,12 @@ def fx_cachedview(fx):
     n2 = cachedview.run(c2, fx, "src/lib.rs", "cviewfx2::OkBuf2", "store", "view", only=lambda fid: "cviewfx2::" in fid)
     if n2 < 3 or c2.violations or _fires(c, "BadBuf::grow"):
         return False
+    c4 = _ctx()
+    ns = cachedview.setters_always_refresh(c4, fx, "src/lib.rs", "cviewfx::OkBuf", "view", ("ok_append", "ok_reserve", "ok_clear"),
+                                           only=lambda fid: "cviewfx::OkBuf" in fid)
+    # ok_append returns early on an empty source: as a *replacing* method that would be wrong, and only that one is
+    if ns != 3 or not _fires(c4, "OkBuf::ok_append") or _fires(c4, "OkBuf::ok_reserve") or _fires(c4, "OkBuf::ok_clear"):
+        return False
     return nb >= 5 and no >= 3 and _fires(c, "BadBuf::bad_append") and _fires(c, "BadBuf::bad_reserve") and \
         _fires(c, "BadBuf::bad_via_helper") and not _fires(c, "BadBuf::set") and not _fires(c, "cviewfx::OkBuf")
 
